@@ -56,14 +56,17 @@ func VerifDivInt() {
 		verifAssert(q.Negative == (x.Negative != y.Negative), "C10.quoint.sign")
 		verifAssert(q.Coeff.Cmp(&lim) < 0, "C10.quoint.digits") // otherwise DivisionImpossible was due
 		verifAssert(qres == 0, "C10.quoint.flags")
+		verifAssert(qres == 0, "C02.quoint.flags")
 		verifAssert(verifFit(c, &q), "C07.quoint.fit")
 		verifCover("quoint.finite")
 	} else {
 		verifAssert(verifAnd(q.Form == NaN, qres == DivisionImpossible), "C10.quoint.impossible")
+		verifAssert(qres == DivisionImpossible, "C02.quoint.impossible_flag")
 		// DivisionImpossible only when the integer quotient really needs more than P digits: a >= 10^P * b
 		var lb BigInt
 		lb.Mul(&lim, &b)
 		verifAssert(a.Cmp(&lb) >= 0, "C10.quoint.impossible_iff")
+		verifAssert(a.Cmp(&lb) >= 0, "C02.quoint.impossible_only_when_due")
 		verifCover("quoint.impossible")
 	}
 	// both methods agree on when the division is impossible
